@@ -382,6 +382,16 @@ func (u *Unit) writeInFrame(st *State, elem types.Type, addr *Term) {
 // path. For race freedom (C19) a write of an unchanged value is still a write,
 // so writes to components outside the contract's modifies clause are rejected
 // as events, not by comparing values.
+// declaresAnyWrite: the contract allows the function to modify sample storage or headers.
+func (u *Unit) declaresAnyWrite() bool {
+	for m := range u.ct.Modifies {
+		if m != "allocs" {
+			return true
+		}
+	}
+	return false
+}
+
 func (u *Unit) writeEvent(st *State, comp string) {
 	if u.old == nil || u.declaredModifies(comp) {
 		return
